@@ -739,7 +739,7 @@ func (f *c35Fn) p4Batcher(rowCh *c35Chan) {
 		return
 	}
 	// stores of the converted row into the batch, counter increments, alternative consumption
-	var rowsField, counterField string
+	var rowsField, counterField, storeShape string
 	indexStore := false
 	var indexExpr ast.Expr
 	isStore := func(n ast.Node) bool {
@@ -754,6 +754,21 @@ func (f *c35Fn) p4Batcher(rowCh *c35Chan) {
 		rowsField = fld
 		if ix, ok := ast.Unparen(as.Lhs[0]).(*ast.IndexExpr); ok {
 			indexStore, indexExpr = true, ix.Index
+			// batch.rows[i] = out : the converted row itself
+			if c35Obj(f.info, as.Rhs[0]) != outVar {
+				storeShape = fmt.Sprintf("`%s` does not store the converted row %s itself", shortNode(f.c.P.Fset, as), outVar.Name())
+			}
+			return true
+		}
+		// batch.rows = append(batch.rows, out) : at the end, nothing else
+		call, isCall := ast.Unparen(as.Rhs[0]).(*ast.CallExpr)
+		okShape := isCall && IsBuiltinCall(f.info, call, "append") && len(call.Args) == 2 && !call.Ellipsis.IsValid() && c35Obj(f.info, call.Args[1]) == outVar
+		if okShape {
+			af, ok := f.rootedAt(call.Args[0], batch)
+			okShape = ok && af == fld && types.ExprString(call.Args[0]) == types.ExprString(as.Lhs[0])
+		}
+		if !okShape {
+			storeShape = fmt.Sprintf("`%s` is not `%s = append(%s, %s)`: the converted row is not appended unchanged at the end of the batch (order / content of the rows changes)", shortNode(f.c.P.Fset, as), types.ExprString(as.Lhs[0]), types.ExprString(as.Lhs[0]), outVar.Name())
 		}
 		return true
 	}
@@ -864,6 +879,8 @@ func (f *c35Fn) p4Batcher(rowCh *c35Chan) {
 	switch {
 	case path != nil:
 		c.Bad("C35-P4", rkey, recvCC.Pos(), fmt.Sprintf("%s/%s: after receiving a row, %s: rows are lost, duplicated or miscounted", f.name, s.name, why), c.P.DescribePath(path)...)
+	case storeShape != "":
+		c.Bad("C35-P4", rkey, recvCC.Pos(), fmt.Sprintf("%s/%s: %s", f.name, s.name, storeShape))
 	case rowsField == "" || counterField == "":
 		c.Bad("C35-P4", rkey, recvCC.Pos(), fmt.Sprintf("%s/%s: the converted row %s is never stored into the batch %s, or no field of it counts the rows", f.name, s.name, outVar.Name(), batch.Name()))
 	default:
@@ -1336,6 +1353,163 @@ func (f *c35Fn) ruleFlag() {
 		return
 	}
 	c.Ok("C35-P6", key, flag.Pos(), fmt.Sprintf("%s is set (%d place) only next to a callback call", flag.Name(), n))
+}
+
+// ruleDeliver: every batch received by the delivering stage is passed to the callback exactly once.
+func (f *c35Fn) ruleDeliver() {
+	c := f.c
+	if f.cbVar == nil {
+		return
+	}
+	for _, s := range f.stages {
+		if !f.containsCall(s.lit.Body, f.isCallbackCall) {
+			continue
+		}
+		key := f.name + "/" + s.name + "/batch-delivered-once"
+		var recvCC *ast.CommClause
+		var recvAs *ast.AssignStmt
+		nrecv := 0
+		ast.Inspect(s.lit.Body, func(n ast.Node) bool {
+			if cc, ok := n.(*ast.CommClause); ok && cc.Comm != nil {
+				if as, ok := cc.Comm.(*ast.AssignStmt); ok && len(as.Lhs) == 2 {
+					if r := c35CommRecv(as); r != nil {
+						if v, ok := c35Obj(f.info, r.(*ast.UnaryExpr).X).(*types.Var); ok && f.chanOf(v) != nil {
+							recvCC, recvAs = cc, as
+							nrecv++
+						}
+					}
+				}
+			}
+			return true
+		})
+		if nrecv != 1 {
+			c.Undecided("C35-P6", key, s.lit.Pos(), "the delivering stage does not receive its batches by exactly one select case `r, ok := <-chan`")
+			continue
+		}
+		rVar, okVar := c35Obj(f.info, recvAs.Lhs[0]), c35Obj(f.info, recvAs.Lhs[1])
+		g := c.P.CFG(f.info, s.lit.Body)
+		blk := f.caseBodyBlock(g, recvCC)
+		if blk == nil || rVar == nil || okVar == nil {
+			c.Undecided("C35-P6", key, recvCC.Pos(), "receive case not found in the control-flow graph")
+			continue
+		}
+		facts := map[types.Object]c35Fact{okVar: c35BoolTrue}
+		comms := c35CommStmts(s.lit.Body)
+		unit := c35UnitOfLit(f, s.lit)
+		why := ""
+		path := pathExplore(g, CFGPoint{blk, -1}, c35Count{},
+			func(n ast.Node, st c35Count) (c35Count, pathAct) {
+				if n == ast.Node(recvAs) {
+					if st.a != 1 {
+						why = fmt.Sprintf("the next batch is received after %d callback calls for this one (want exactly 1)", st.a)
+						return st, pathBad
+					}
+					return st, pathStop
+				}
+				if sm, ok := n.(ast.Stmt); ok && comms[sm] != nil {
+					return st, pathGo
+				}
+				wrong := false
+				inspectNoLit(n, func(m ast.Node) bool {
+					if call, ok := m.(*ast.CallExpr); ok && f.isCallbackCall(call) {
+						st.a = c35Sat(st.a)
+						if len(call.Args) == 0 || c35Obj(f.info, call.Args[0]) != rVar {
+							wrong = true
+						}
+					}
+					return true
+				})
+				if wrong {
+					why = fmt.Sprintf("the callback is not invoked with the received batch %s", rVar.Name())
+					return st, pathBad
+				}
+				if st.a == 2 {
+					why = "the batch is passed to the callback twice (the client receives 128 rows twice)"
+					return st, pathBad
+				}
+				if ret, ok := n.(*ast.ReturnStmt); ok && st.a == 0 {
+					if k, _, _ := unit.retErr(ret); k == c35RetNil {
+						why = "the stage returns a nil error without having delivered the batch it received"
+						return st, pathBad
+					}
+				}
+				return st, pathGo
+			},
+			func(b *cfg.Block, succ int, st c35Count) (c35Count, bool) {
+				if !c35EdgeOK(f.info, b, succ, facts) {
+					return st, false
+				}
+				if nb := b.Succs[succ]; nb.Kind == cfg.KindSelectCaseBody && f.isGroupDoneClause(nb.Stmt.(*ast.CommClause)) {
+					return st, false
+				}
+				return st, true
+			}, nil)
+		if path != nil {
+			c.Bad("C35-P6", key, recvCC.Pos(), fmt.Sprintf("%s/%s: after receiving a full batch, %s: rows are lost or duplicated at a batch boundary", f.name, s.name, why), c.P.DescribePath(path)...)
+			continue
+		}
+		c.Ok("C35-P6", key, recvCC.Pos(), fmt.Sprintf("each received batch: exactly one %s(%s, …)", f.cbVar.Name(), rVar.Name()))
+	}
+}
+
+// ruleColumns (C1): every result a family function builds carries the column metadata it was given.
+func (f *c35Fn) ruleColumns() {
+	c := f.c
+	sig, _ := f.info.Defs[f.fd.Name].Type().(*types.Signature)
+	if sig == nil || sig.Results().Len() == 0 {
+		return
+	}
+	pt, ok := sig.Results().At(0).Type().(*types.Pointer)
+	if !ok {
+		return
+	}
+	st, ok := pt.Elem().Underlying().(*types.Struct)
+	if !ok {
+		return
+	}
+	// (parameter, field) pairs of identical slice type
+	type pair struct {
+		p     *types.Var
+		field string
+	}
+	var pairs []pair
+	for i := 0; i < sig.Params().Len(); i++ {
+		p := sig.Params().At(i)
+		if _, isSlice := p.Type().(*types.Slice); !isSlice {
+			continue
+		}
+		for j := 0; j < st.NumFields(); j++ {
+			if types.Identical(st.Field(j).Type(), p.Type()) {
+				pairs = append(pairs, pair{p, st.Field(j).Name()})
+			}
+		}
+	}
+	if len(pairs) == 0 {
+		return
+	}
+	ast.Inspect(f.fd.Body, func(n ast.Node) bool {
+		cl, ok := n.(*ast.CompositeLit)
+		if !ok || !types.Identical(f.info.TypeOf(cl), pt.Elem()) {
+			return true
+		}
+		for _, pr := range pairs {
+			key := f.name + "/" + types.ExprString(cl.Type) + "{" + pr.field + "}"
+			found := false
+			for _, e := range cl.Elts {
+				if kv, ok := e.(*ast.KeyValueExpr); ok {
+					if id, ok := kv.Key.(*ast.Ident); ok && id.Name == pr.field && c35Obj(f.info, kv.Value) == pr.p {
+						found = true
+					}
+				}
+			}
+			if !found {
+				c.Bad("C35-C1", key, cl.Pos(), fmt.Sprintf("%s: a %s is built without `%s: %s`: that result set reaches the client without the statement's column metadata", f.name, types.ExprString(cl.Type), pr.field, pr.p.Name()))
+			} else {
+				c.Ok("C35-C1", key, cl.Pos(), pr.field+": "+pr.p.Name())
+			}
+		}
+		return true
+	})
 }
 
 // ---- P6: the dispatcher --------------------------------------------------------------------------------
